@@ -27,6 +27,20 @@ let universe_of (s : string) =
                       List.map str_of_string (String.split_on_char ',' (String.sub cl (i + 1) (String.length cl - i - 1))))
     | None -> None) (String.split_on_char ';' s))
 
+(* the mapping law presupposes that no commodity's path (class:commodity) is a proper prefix of another's
+   (C20_mapping_law_table's hypothesis prefix_free; C20_w4_needs_prefix_free shows the law false on correct tables
+   otherwise): decided on the universe of the case *)
+let universe_prefix_free (u : string) : bool =
+  if u = "-" || u = "" then true else
+  let paths = List.concat_map (fun cl ->
+    match String.rindex_opt cl '=' with
+    | Some i ->
+      let cls = String.sub cl 0 i in
+      List.map (fun c -> cls ^ ":" ^ c) (String.split_on_char ',' (String.sub cl (i + 1) (String.length cl - i - 1)))
+    | None -> []) (String.split_on_char ';' u) in
+  not (List.exists (fun p -> List.exists (fun q ->
+    let pp = p ^ ":" in String.length q > String.length pp && String.sub q 0 (String.length pp) = pp) paths) paths)
+
 let decode_pf ?(from_key = "from") (s : string) : K.pf_cfg =
   let g = kv_of s in
   { K.pc_from = date_of (g from_key); K.pc_to = date_of (g "to");
@@ -147,7 +161,7 @@ let () =
                (match ok_part plain with
                 | Some pt ->
                   let (pdates, prows) = parse_text_table pt in
-                  pdates = dates && K.mapping_law_b tol_weight ncols cfg.K.pc_mapping prows rows
+                  pdates = dates && (not (universe_prefix_free (kv_of c "uni")) || K.mapping_law_b tol_weight ncols cfg.K.pc_mapping prows rows)
                 | None -> false)
              | _ -> true) in
            first_fail [
